@@ -387,8 +387,10 @@ def _late():
 
 def generate(prop, tier, seed):
     _late()
+    from . import props
     rng = random.Random(seed * 1000003 + int(prop[1:]))
-    scens = GENERATORS[prop](tier, rng)
+    g = props.PROPS[prop].get('gen') or GENERATORS[prop]
+    scens = g(tier, rng)
     for i, s in enumerate(scens):
         s['sc'] = i + 1
     return scens
